@@ -24,7 +24,7 @@ def run(cmd, cwd, timeout=300, env=ENV):
         return 124, "timeout"
 
 def worker(args):
-    wid, muts, outpath, recheck = args
+    wid, muts, outpath, recheck, skiptests = args
     d = tempfile.mkdtemp(prefix="csmutw%d." % wid, dir="/tmp")
     repo = os.path.join(d, "repo")
     subprocess.run(["rsync", "-a", "--exclude", ".git", "/repo/", repo + "/"], check=True)
@@ -53,8 +53,11 @@ def worker(args):
         elif rc != 0:
             rec["status"] = "nocompile"
         else:
-            rc, o = run(["go", "vet", "./..."], repo, 300)
-            rc2, o2 = run(["go", "test", "-vet=off", "-count=1", "-timeout", "120s", "./..."], repo, 400)
+            if skiptests:
+                rc, rc2 = 0, 0
+            else:
+                rc, o = run(["go", "vet", "./..."], repo, 300)
+                rc2, o2 = run(["go", "test", "-vet=off", "-count=1", "-timeout", "120s", "./..."], repo, 400)
             if rc2 != 0:
                 rec["status"] = "killed_by_tests"
             else:
@@ -63,7 +66,7 @@ def worker(args):
                 caught = {}
                 for c in CHECKS.get(m["file"], "").split():
                     env = dict(ENV, CSVERIFY_REPO=repo, CSVERIFY_EVIDENCE_DIR=os.path.join(d, "ev"))
-                    rcc, oc = run(["/verif/bin/csverify", "check", c], "/verif", 900, env)
+                    rcc, oc = run([os.environ.get("CSVERIFY_BIN", "/verif/bin/csverify"), "check", c], "/verif", 900, env)
                     rules = sorted(set(l.split(" ")[1].replace("rule=", "") for l in oc.splitlines() if l.startswith("FINDING")))
                     infra = [l for l in oc.splitlines() if l.startswith("INFRA")]
                     if rules or infra:
@@ -82,6 +85,7 @@ def main():
     ap.add_argument("--workers", type=int, default=8)
     ap.add_argument("--limit", type=int, default=0)
     ap.add_argument("--out", default="/verif/mutation/results.jsonl")
+    ap.add_argument("--skip-tests", action="store_true", help="for files the pinned suite does not exercise (json.go): every compiling mutant is run against the checks")
     ap.add_argument("--recheck", default="", help="results file of an earlier run: re-run the checks on its unreported survivors only")
     a = ap.parse_args()
     muts = []
@@ -101,7 +105,7 @@ def main():
         random.Random(1).shuffle(muts)
         muts = muts[:a.limit]
     print("mutants:", len(muts), file=sys.stderr)
-    chunks = [(i, muts[i::a.workers], a.out, bool(a.recheck)) for i in range(a.workers)]
+    chunks = [(i, muts[i::a.workers], a.out, bool(a.recheck), a.skip_tests) for i in range(a.workers)]
     os.makedirs(os.path.dirname(a.out), exist_ok=True)
     open(a.out, "w").close()
     with multiprocessing.Pool(a.workers) as pool:
